@@ -13,6 +13,10 @@
 #endif
 #include "vshim_off.hpp"
 // ---- plain C++ from here on ----
+#include <sys/resource.h>
+#include <sys/wait.h>
+#include <unistd.h>
+
 #include <cinttypes>
 #include <cstring>
 #include <fstream>
@@ -218,8 +222,32 @@ int NT = 0;            // program threads
 bool g_epilogue = true;
 const void *g_tls_node[kMaxT + 1];  // MCS: per-thread cached node pointer (published at points)
 
-// offset of the 64-bit lock word inside a lock object: 0 in the pinned source; learnt from the first atomic access
-// to a lock object, so that padding or an added leading member does not blind the monitors
+// Layout of the lock word. The defaults are the documented layout (design_doc/lock.md and the property anchors):
+// X bit 63, SIX bit 62, shared counter bits 0-61 (pessimistic) / 32-61 (optimistic), version bits 0-31, free = 0.
+// Before any exploration the harness *calibrates* the layout on a private lock object through the public API
+// (Calibrate() below); a consistent different layout is adopted, so that a refactoring that moves internal bits,
+// pads the object or adds another atomic member does not make the word-based invariants raise false alarms. An
+// inconsistent calibration (a defect, not a layout) keeps the documented layout.
+struct Layout {
+  int32_t mode = 0;       // 0 documented (calibration confirmed or not possible), 1 learnt (differs from the documentation)
+  int32_t fixed_off = 0;  // 1: word offset known from calibration; accesses to other atomics inside a lock object are not word accesses
+  uint64_t word_off = 0;
+  uint64_t free_word = 0;
+  uint64_t x = 1ULL << 63U, six = 1ULL << 62U;
+#if LK == 1
+  uint64_t s_unit = 1ULL << 32U, s_mask = ((1ULL << 30U) - 1ULL) << 32U;
+  uint64_t ver_mask = 0xffffffffULL;
+  uint32_t ver_shift = 0;
+#else
+  uint64_t s_unit = 1ULL, s_mask = (1ULL << 62U) - 1ULL;
+  uint64_t ver_mask = 0;
+  uint32_t ver_shift = 0;
+#endif
+  char note[224] = "documented layout (calibration not run)";
+} LAY;
+
+// offset of the 64-bit lock word inside a lock object: 0 in the pinned source; fixed by the calibration, else learnt
+// from the first atomic access to a lock object
 size_t g_word_off = 0;
 inline uint64_t
 Word(int l)
@@ -238,6 +266,7 @@ LockOfAddr(const void *a)
     const auto *lo = reinterpret_cast<const char *>(&W->locks[l]);
     const auto *p = static_cast<const char *>(a);
     if (p >= lo && p + sizeof(uint64_t) <= lo + sizeof(Lock)) {
+      if (LAY.fixed_off != 0) return static_cast<size_t>(p - lo) == g_word_off ? l : -1;
       g_word_off = static_cast<size_t>(p - lo);
       return l;
     }
@@ -283,9 +312,6 @@ XRegistered(int l)
   return false;
 }
 
-#if LK == 1
-constexpr uint64_t kOptVerMask = 0xffffffffULL;
-#endif
 
 
 #if LK != 2
@@ -313,12 +339,8 @@ CheckGrantsVisible(int l, int tid, bool comp, const char *what, bool at_begin)
     }
     if (p.mode == M_X) x = true;
   }
-#if LK == 1
-  const uint64_t cnt = (w >> 32U) & ((1ULL << 30U) - 1ULL);
-#else
-  const uint64_t cnt = w & ((1ULL << 62U) - 1ULL);
-#endif
-  const bool wx = (w >> 63U) & 1U, wsix = (w >> 62U) & 1U;
+  const uint64_t cnt = (w & LAY.s_mask) / LAY.s_unit;
+  const bool wx = (w & LAY.x) != 0, wsix = (w & LAY.six) != 0;
   if (cnt < ns || (six && !wsix) || (x && !wx) || (six_or_x && !wsix && !wx)) {
     if (at_begin) {
       vs::Violate(comp ? "C01,C07,C13" : "C01,C07", "GRANT-NOT-IN-WORD",
@@ -399,7 +421,7 @@ EndPhaseNow(int tid, int ph)
     // C09: nobody else can hold anything while X is held, so the step that ends the exclusive grant
     // must leave the version alone in the word (documented layout: bits 32-63 are lock-mode state)
     const uint64_t w = Word(p.lock);
-    if ((w >> 32U) != 0) {
+    if ((w & ~LAY.ver_mask) != (LAY.free_word & ~LAY.ver_mask)) {
       vs::Violate("C09,C07", "MODE-BITS-DISTURBED",
                   Fmt("T%d ended an exclusive grant on lock %d and left the word 0x%" PRIx64 ": the published version disturbed the lock-mode bits", tid, p.lock, w));
     }
@@ -454,7 +476,7 @@ OnPost(int tid, const vs::Op &op, uint64_t observed, uint64_t written, bool wrot
       ++GH->commits[p.lock];
       {
         const uint64_t w = Word(p.lock);
-        if ((w >> 32U) != (1ULL << 30U)) {  // only the SIX flag (bit 62) may be set after a downgrade
+        if ((w & ~LAY.ver_mask) != ((LAY.free_word & ~LAY.ver_mask) | LAY.six)) {  // only the SIX flag may be set after a downgrade
           vs::Violate("C09,C07", "MODE-BITS-DISTURBED",
                       Fmt("T%d downgraded an exclusive grant on lock %d and left the word 0x%" PRIx64 ": the published version disturbed the lock-mode bits", tid, p.lock, w));
         }
@@ -471,11 +493,11 @@ OnPost(int tid, const vs::Op &op, uint64_t observed, uint64_t written, bool wrot
   if (l >= 0) {
     // C09: the version field always equals the ghost version
     const uint64_t w = Word(l);
-    if (eff && static_cast<uint32_t>(w & kOptVerMask) != GH->ghost_ver[l]) {
+    if (eff && static_cast<uint32_t>((w & LAY.ver_mask) >> LAY.ver_shift) != GH->ghost_ver[l]) {
       vs::Violate("C09", "VERSION-FIELD",
                   Fmt("after a write by T%d the version field of lock %d is 0x%x but the specification "
                       "prescribes 0x%x (word 0x%" PRIx64 ")",
-                      tid, l, static_cast<uint32_t>(w & kOptVerMask), GH->ghost_ver[l], w));
+                      tid, l, static_cast<uint32_t>((w & LAY.ver_mask) >> LAY.ver_shift), GH->ghost_ver[l], w));
     }
   }
 #endif
@@ -1249,10 +1271,10 @@ Teardown()
   for (int l = 0; l < kLocks; ++l) {
     const uint64_t w = Word(l);
 #if LK == 1
-    const uint64_t want = GH->ghost_ver[l];
+    const uint64_t want = (LAY.free_word & ~LAY.ver_mask) | (static_cast<uint64_t>(GH->ghost_ver[l]) << LAY.ver_shift);
     const char *props = "C02,C09,C07";
 #else
-    const uint64_t want = 0;
+    const uint64_t want = LAY.free_word;
     const char *props = "C02,C07";
 #endif
     if (w != want) {
@@ -1361,6 +1383,165 @@ MakeScenario()
 }  // namespace
 
 /*----------------------------------------------------------------------------------------------
+ * calibration of the lock-word layout (runs once per process, in a child, through the public API)
+ *--------------------------------------------------------------------------------------------*/
+namespace
+{
+struct alignas(64) CalStore {
+  unsigned char b[sizeof(Lock) < 64 ? 64 : sizeof(Lock)];
+};
+
+bool
+CalibrateChild(Layout *out)
+{
+  static CalStore store;
+  memset(store.b, 0, sizeof store.b);
+  Lock *lk = new (store.b) Lock{};
+  constexpr size_t kWords = sizeof(Lock) / 8;
+  auto snap = [&](uint64_t *v) { memcpy(v, store.b, kWords * 8); };
+  uint64_t b0[kWords], b1[kWords], b2[kWords], b3[kWords], b4[kWords];
+  snap(b0);
+  {
+    auto g = lk->LockS();
+    snap(b1);
+    {
+      auto g2 = lk->LockS();
+      snap(b2);
+    }
+    snap(b3);
+  }
+  snap(b4);
+  // the lock word is the one 8-byte word that changes with a shared grant and comes back with its release
+  int off = -1;
+  for (size_t i = 0; i < kWords; ++i) {
+    if (b1[i] != b0[i] && b4[i] == b0[i]) {
+      if (off >= 0) return false;
+      off = static_cast<int>(i);
+    }
+  }
+  if (off < 0) return false;
+  Layout L;
+  L.fixed_off = 1;
+  L.word_off = static_cast<uint64_t>(off) * 8;
+  auto word = [&]() { return *reinterpret_cast<volatile uint64_t *>(store.b + L.word_off); };
+  L.free_word = b0[off];
+#if LK == 2
+  // MCS: flags, counter and tail pointer share the word and grants are spread over queue nodes; only the position of
+  // the word and its free value are used by the monitors
+  L.mode = (L.word_off != 0 || L.free_word != 0) ? 1 : 0;
+  snprintf(L.note, sizeof L.note, "%s: word at offset %" PRIu64 ", free word 0x%" PRIx64, L.mode ? "learnt" : "documented layout confirmed",
+           L.word_off, L.free_word);
+  *out = L;
+  return true;
+#else
+  const uint64_t w0 = b0[off], w1 = b1[off], w2 = b2[off], w3 = b3[off];
+  const uint64_t unit = w1 - w0;
+  if (unit == 0 || (unit & (unit - 1)) != 0 || w2 - w1 != unit || w3 != w1) return false;
+  L.s_unit = unit;
+  uint64_t wsix = 0, wx = 0;
+  {
+    auto g = lk->LockSIX();
+    wsix = word();
+  }
+  if (word() != w0) return false;
+  {
+    auto g = lk->LockX();
+    wx = word();
+#if LK == 1
+    g.SetVersion(0);  // the default would publish version 1
+#endif
+  }
+  if (word() != w0) return false;
+  L.six = wsix ^ w0;
+  L.x = wx ^ w0;
+  auto single = [](uint64_t m) { return m != 0 && (m & (m - 1)) == 0; };
+  if (!single(L.six) || !single(L.x) || L.six == L.x || L.six == unit || L.x == unit) return false;
+  uint64_t special = L.six | L.x;
+#if LK == 1
+  {
+    auto g = lk->LockX();
+    g.SetVersion(0xffffffffU);
+  }
+  L.ver_mask = word() ^ w0;
+  {
+    auto g = lk->LockX();
+    g.SetVersion(0);
+  }
+  if (word() != w0) return false;
+  {
+    auto g = lk->LockX();  // default: version + 1
+  }
+  const uint64_t one = word() ^ w0;
+  {
+    auto g = lk->LockX();
+    g.SetVersion(0);
+  }
+  if (word() != w0 || L.ver_mask == 0) return false;
+  L.ver_shift = static_cast<uint32_t>(__builtin_ctzll(L.ver_mask));
+  if ((L.ver_mask >> L.ver_shift) != 0xffffffffULL || one != (1ULL << L.ver_shift)) return false;
+  if ((L.ver_mask & (special | unit)) != 0) return false;
+  special |= L.ver_mask;
+#endif
+  // the counter field: from its unit up to the next bit that has another meaning
+  uint64_t mask = 0;
+  for (uint64_t b = unit; b != 0 && (b & special) == 0; b <<= 1U) mask |= b;
+  L.s_mask = mask;
+  if ((mask & (mask + unit)) != 0 && mask + unit != 0) return false;  // contiguous by construction; defensive
+  const Layout doc{};
+  L.mode = (L.word_off != 0 || L.free_word != 0 || L.x != doc.x || L.six != doc.six || L.s_unit != doc.s_unit || L.s_mask != doc.s_mask ||
+            L.ver_mask != doc.ver_mask)
+               ? 1
+               : 0;
+  snprintf(L.note, sizeof L.note, "%s: off %" PRIu64 " free 0x%" PRIx64 " X 0x%" PRIx64 " SIX 0x%" PRIx64 " S unit 0x%" PRIx64 " S mask 0x%" PRIx64 " ver 0x%" PRIx64,
+           L.mode ? "learnt" : "documented layout confirmed", L.word_off, L.free_word, L.x, L.six, L.s_unit, L.s_mask, L.ver_mask);
+  *out = L;
+  return true;
+#endif
+}
+
+// The calibration runs library code outside the scheduler; it is done in a child process with a CPU-time limit so
+// that a library that hangs or crashes there cannot take the harness with it (the documented layout is then used).
+void
+Calibrate()
+{
+  int fd[2];
+  if (pipe(fd) != 0) return;
+  fflush(stdout);
+  fflush(stderr);
+  const pid_t pid = fork();
+  if (pid < 0) return;
+  if (pid == 0) {
+    close(fd[0]);
+    struct rlimit rl{5, 5};
+    setrlimit(RLIMIT_CPU, &rl);
+    Layout L;
+    if (CalibrateChild(&L)) {
+      if (write(fd[1], &L, sizeof L) != static_cast<ssize_t>(sizeof L)) _exit(3);
+      _exit(0);
+    }
+    _exit(1);
+  }
+  close(fd[1]);
+  Layout L;
+  size_t got = 0;
+  while (got < sizeof L) {
+    const ssize_t n = read(fd[0], reinterpret_cast<char *>(&L) + got, sizeof L - got);
+    if (n <= 0) break;
+    got += static_cast<size_t>(n);
+  }
+  close(fd[0]);
+  int st = 0;
+  waitpid(pid, &st, 0);
+  if (got == sizeof L && WIFEXITED(st) && WEXITSTATUS(st) == 0) {
+    LAY = L;
+    g_word_off = static_cast<size_t>(L.word_off);
+  } else {
+    snprintf(LAY.note, sizeof LAY.note, "documented layout (calibration inconsistent: child status 0x%x)", st);
+  }
+}
+}  // namespace
+
+/*----------------------------------------------------------------------------------------------
  * driver
  *--------------------------------------------------------------------------------------------*/
 namespace
@@ -1439,6 +1620,7 @@ main(int argc, char **argv)
     }
   }
   g_epilogue = !a.no_epilogue;
+  Calibrate();
   if (a.mode == "replay") {
     PROG = Parse(a.program);
     NT = static_cast<int>(PROG.th.size());
@@ -1492,7 +1674,8 @@ main(int argc, char **argv)
             vs::JsonEscape(r.job.name).c_str(), r.status, vs::JsonEscape(r.err).c_str(), r.json.empty() ? "null" : r.json.c_str());
     if (r.status == 2) rc = 2;
   }
-  fprintf(out, "{\"summary\":true,\"lock\":\"%s\",\"programs\":%zu,\"wall_s\":%.3f}\n", kLockName, results.size(), vs::Now() - t0);
+  fprintf(out, "{\"summary\":true,\"lock\":\"%s\",\"programs\":%zu,\"wall_s\":%.3f,\"layout\":\"%s\"}\n", kLockName, results.size(), vs::Now() - t0,
+          vs::JsonEscape(LAY.note).c_str());
   if (out != stdout) fclose(out);
   return rc;
 }
